@@ -42,6 +42,17 @@ Theorem C19_as_found_refuted :
 Proof. exact as_found_refuted. Qed.
 Print Assumptions C19_as_found_refuted.
 
+(* … and the two late reads of the current keystore (coin selection naming its first address, the script
+   closure of signing), found by freezing a request at the end of each of its database reads *)
+Theorem C19_as_found_refuted_late_reads :
+  wf w_race3 /\ selected_ok w_race3 env_sel /\
+  handle id_trim as_found env_sel w_race3 (RAutoCreateTransaction one_mass 0 [] [] []) = Panic PFindMaNil /\
+  handle id_trim as_found env_sel w_race3 req_sign_meta = Panic PSignScriptCurNil /\
+  handle id_trim all_fixed env_sel w_race3 (RAutoCreateTransaction one_mass 0 [] [] []) = Err ErrBelow /\
+  handle id_trim all_fixed env_sel w_race3 req_sign_meta = Err ErrBelow.
+Proof. exact as_found_refuted_late_reads. Qed.
+Print Assumptions C19_as_found_refuted_late_reads.
+
 (* the same requests on the repaired code are answered or rejected *)
 Theorem C19_witnesses_answered_when_repaired :
   handle id_trim all_fixed env0 w_sel req_cti_index = Err ErrBelow /\
@@ -82,6 +93,10 @@ Theorem C19_no_panic : forall (trim : str -> str) (e : env) (w : wst) (r : reque
   wf w -> wf_env e -> selected_ok w e -> req_ok r -> handle trim all_fixed e w r <> Panic p.
 Proof. exact handle_no_panic. Qed.
 Print Assumptions C19_no_panic.
+
+(* every switch of the model is in the repaired position for the code as it stands *)
+Example C19_current_code_is_repaired : current_code = all_fixed.
+Proof. reflexivity. Qed.
 
 (* T4: one lemma for every switch setting: a panic can only come from a site whose repair is switched
    off; sites without a switch never fire *)
